@@ -126,7 +126,7 @@ func (r *Report) writeEvidence() error {
 		"slowest":      slow,
 		"vacuity":      map[string]any{"requires_probes": r.VacuityProbes, "satisfiable": r.VacuityOK, "inconclusive": r.VacuityInconclusive, "vacuous": r.VacuityFailed},
 		"abstracted_statements": abstracted,
-		"engine_warnings": warnings,
+		"engine_warnings": capList(warnings, 150),
 		"constant_tables_read_from_source": tables,
 		"refuted":      names(r.Refuted),
 		"regressed":    names(r.Regressed),
@@ -228,4 +228,13 @@ func (r *Report) writeReplay(o *Obl) string {
 func replayOnRealCode(r *Report, o *Obl, path string) bool {
 	// a driver may carry its own scenario for obligations that fail without a model
 	return runReplayDriver(r, o, path)
+}
+
+// capList keeps the first n entries of a long list and says how many were dropped.
+func capList(xs []string, n int) []string {
+	if len(xs) <= n {
+		return xs
+	}
+	out := append([]string{}, xs[:n]...)
+	return append(out, fmt.Sprintf("... and %d more (calls without contract inside units of the zero-annotation sweep; each havocs the heap)", len(xs)-n))
 }
